@@ -47,6 +47,9 @@ def run(tier):
             r10.maywrite(chk, 'C06.D3', prog, eff, p + 'QuerySpace', {'mem_usage': ['->']}, cfgname)
             r10.maywrite(chk, 'C06.D3', prog, eff, p + 'langs', {}, cfgname)
         misc.glu_mirror_rule(chk, 'C06.mirror', prog, cfgname, floor=500)
+        chk.clause('C06.options', 'option-controlled choices of ?gstrf / ?gsitrf (relaxation routine, use of remembered pivots)')
+        for _p in _drv.PRECS:
+            misc.option_choice_rules(chk, 'C06.options', prog, _p, cfgname)
         if r6_wspace.run(chk, 'R6', prog, cfgname) < 32:
             raise AnalysisBroken('C06: workspace allocator routines not found')
         if n < 4 * 200 or nl < 5:
